@@ -509,9 +509,17 @@ inline void parseFamilyA(Ctx& C, ParseStats& S) {
         std::string lit = (neg ? "-" : "") + std::string(size_t(z), '0') + digits;
         runLiteral(C, S, lit, VIA_ALL, TY_ALL, 0);
       }
+    // padded with leading zeros to exactly 61, 62 and 63 characters: the longest literals a document may hold
+    for (int neg = 0; neg < 2; neg++)
+      for (size_t total : {size_t(61), size_t(62), size_t(63)}) {
+        size_t used = digits.size() + size_t(neg);
+        if (used >= total) continue;
+        std::string lit = (neg ? "-" : "") + std::string(total - used, '0') + digits;
+        runLiteral(C, S, lit, VIA_ALL, TY_ALL, 0);
+      }
   }
   C.bound("parse(a): every integer within 2 of 2^k (k<=64) and of 10^k (k<=20), 2^64..2^64+20, both signs, "
-          "0/1/2/3/10/40/100/1000 leading zeros; as [lit], top-level and as a string value");
+          "0/1/2/3/10/40/100/1000 leading zeros and padded to exactly 61/62/63 characters; as [lit], top-level and as a string value");
 }
 
 inline std::vector<std::string> mantissas() {
